@@ -136,6 +136,30 @@ func c06(c *Ctx) {
 		for _, op := range doc.Ops() {
 			ops[op.OperationID] = op
 		}
+		// the same file with a SECOND service over the same types: that service's document must describe the
+		// same bodies (what the generator keeps per message within a file must not starve the later service)
+		ops2 := map[string]oas.Op{}
+		docKey2 := docKey + "#second-service"
+		if req2, err := spec.Request([]*spec.File{corpus.TwoServices(u.FP)}, nil, "format=json"); err == nil {
+			res2 := lab.RunDecoy(c.TB, "openapiv3", req2, plugin.RunOpt{})
+			c.R.Eval(1)
+			if res2.OK() {
+				for n, ct := range res2.Files {
+					if !strings.Contains(n[strings.LastIndex(n, "/")+1:], "Two.") {
+						continue
+					}
+					if d2, err := oas.Parse(n, ct); err == nil {
+						d2s := &oas.Doc{Name: d2.Name, Root: oas.Strictify(d2.Root)}
+						mu.Lock()
+						docs[docKey2] = d2s.Root
+						mu.Unlock()
+						for _, op := range d2s.Ops() {
+							ops2[strings.TrimSuffix(op.OperationID, "Again")] = op
+						}
+					}
+				}
+			}
+		}
 		gs, err := serveGo(ch, []string{u.FP.Svc}, "none", false)
 		if err != nil {
 			return
@@ -170,6 +194,9 @@ func c06(c *Ctx) {
 				}
 				for _, e := range out.byKind("wire") {
 					c06collect(addSample, e, op, docKey, fmt.Sprintf("%s/ctx=%s", base, ctx), lv.Class, protoText, ctxMD)
+					if op2, ok := ops2[u.FP.RPC[ctx]]; ok {
+						c06collect(addSample, e, op2, docKey2, fmt.Sprintf("%s/ctx=%s/doc=second-service-of-file", base, ctx), lv.Class, protoText, ctxMD)
+					}
 				}
 			}
 			if ctx != "top" {
